@@ -21,17 +21,27 @@ CLAIM = dict(
          "k-independent term sum_b w_b T3(Cb) b_e (zero for degree <= 2: exact), the numerical second derivative "
          "(stencil of the numerical first) is exactly the analytic Hessian and the numerical third derivative exactly "
          "the analytic third-derivative tensor; with real weights and vectors the stencil commutes with complex "
-         "conjugation, so all three numerical derivatives of a Hermitian H(k) are Hermitian.  The model is tied to "
+         "conjugation, so all three numerical derivatives of a Hermitian H(k) are Hermitian; find_shells / check_B1 "
+         "(SVD solve and check_parallel abstract): whenever the function returns, the returned weights passed the guard "
+         "|sum_s w_s M_s - 1|_F <= 1e-5 on the selected shells, every shell (a run of the sorted lengths) and hence the "
+         "returned stencil is closed under b -> -b with equal weights, and sum_b w_b b_a b_c equals delta_ac up to that "
+         "tolerance and the shells dropped by the |w| > 1e-8 filter; the main expansion is also proved without the exact "
+         "completeness relation (deviation = sum_a A1_a (M2_ae - delta_ae)).  The model is tied to "
          "the code by running both on the same exact inputs (the code's own weights and vectors).",
-    note="Trusted: Lean kernel + Mathlib; the harness; find_shells (SVD) is not modelled - its output is checked on "
-         "every run against the two hypotheses of the theorems; IEEE rounding is bounded, not proved.",
+    note="Trusted: Lean kernel + Mathlib; the harness; in find_shells the SVD solve, check_parallel and np.linalg.norm "
+         "are abstract kernels (contract of the norm: |-v| = |v|); the exact hypotheses of the derivative theorems are "
+         "additionally checked numerically on every stencil used; IEEE rounding is bounded, not proved.",
 )
 TRUSTED = [
     "modelled: Derivative3D.__call__, the chain Ham -> derHam -> der2Ham -> der3Ham of SystemKP.__init__, k_to_1BZ, "
     "k_red2cart, the Cartesian / reduced k-vector convention",
-    "not modelled: find_shells / check_B1 (numpy SVD): its result (w_b, b) is an input of the model; the hypotheses "
-    "GoodStencil (closed under negation with equal weights; completeness relation B1) are checked numerically on the "
-    "real find_shells for every lattice used",
+    "modelled: find_shells / check_B1 (search box, sort by length, find_degen runs, the selection loop with its "
+    "`weights` variable, the residual guard, the |w| > 1e-8 filter); abstract kernels: the SVD solve (`kernel`), "
+    "check_parallel (`par`), np.linalg.norm (`nrm`, contract nrm(-v) = nrm(v)); the correspondence run instantiates them "
+    "exactly (pseudo-inverse weights by Gaussian elimination on the Gram matrix, exact parallelism, squared lengths) on "
+    "dyadic lattices; the exact GoodStencil hypotheses are in addition checked numerically on every stencil the oracle uses",
+    "tolerance-guarded branches of find_shells (1e-8 run threshold on float norms, 1e-7 on singular values, 1e-6 on "
+    "parallelism) are modelled as exact comparisons; lattices in the correspondence keep a margin",
     "not modelled (oracle only): Data_K_k.Xbar, the calculators; eigh / formula evaluation by contract",
     "calculators / tabulators: the allowed |numeric - analytic| is derived from the proved derivative bound: 10 x the "
     "measured response of the same quantity to analytic derivatives perturbed by that bound (4 random Hermitian "
@@ -386,6 +396,34 @@ def corr(ctx):
                     part(val[(m, n) + comp[:order]]), tol, f"SystemKP.{['Ham', 'derHam', 'der2Ham', 'der3Ham'][order]} {nm} ({ldesc}, {mode})",
                     ("kp", order, nm, m, n, comp, ldesc, cart, dk, k.tobytes(),
                      tuple(sorted((e, A.tobytes()) for e, A in ham.C.items()))), deg >= 2)
+    # ---- C. find_shells itself: the model (exact kernels: pseudo-inverse weights by Gaussian elimination on the Gram
+    #         matrix, exact parallelism test, shells = equal squared lengths) against the real function
+    shell_lines, shell_expect = [], []
+    for it in range(ctx.n(5, 30)):
+        latt, ldesc = lattice_spec(rs, dyadic=True)
+        dk = 2.0 ** (-rng.randint(4, 7))
+        if "kmax" in latt and latt["kmax"] is not None:
+            B = np.eye(3) * 2 * latt["kmax"]
+        else:
+            B = np.array(latt["recip_lattice"], dtype=float)
+        basis = B * dk
+        case = dict(what="find_shells", lattice=ldesc, dk=dk, basis=basis)
+        with ctx.attempt("find_shells", case):
+            wk, bki = fd.find_shells(basis)
+            ctx.count(f"corr.find_shells.nb={len(wk)}")
+            shell_lines.append(f"fshells 3 {ratss(basis)} 1/100000 1/100000000 50")
+            shell_expect.append((sorted((tuple(int(x) for x in b), float(w)) for w, b in zip(wk, bki)), case))
+    out_sh = ctx.lean(shell_lines)
+    for l, o, (want, case) in zip(shell_lines, out_sh, shell_expect):
+        ctx.case(signature=("fshells", l), nontrivial=len(want) > 6)
+        if o in ("bad-op", "none"):
+            ctx.mismatch(f"find_shells: model returned {o}, code returned {len(want)} vectors", dict(case, line=l))
+            continue
+        got = sorted((tuple(int(x) for x in t.split(",")[1:]), float(Fr(t.split(",")[0]))) for t in o.split(";"))
+        if [g[0] for g in got] != [w_[0] for w_ in want]:
+            ctx.mismatch("find_shells: model and code select different vectors", dict(case, model=got[:30], code=want[:30]))
+        elif max(abs(g[1] - w_[1]) / abs(w_[1]) for g, w_ in zip(got, want)) > 1e-9:
+            ctx.mismatch("find_shells: model and code weights differ", dict(case, model=got[:30], code=want[:30]))
     out = ctx.lean(lines)
     worst = 0.0
     for l, o, (want, tol, what, sig, nt) in zip(lines, out, checks):
